@@ -33,6 +33,10 @@ def make_scratch():
 
 
 def apply(d, m):
+    if 'edits' in m:
+        for e in m['edits']:
+            apply(d, dict(e, id=m['id']))
+        return
     path = os.path.join(d, m['file'])
     src = open(path).read()
     cnt = src.count(m['old'])
